@@ -1068,7 +1068,7 @@ fn main() {
     let thorough = tier_is_thorough();
     let mut rng = Rng::new(seed_from_env());
     let mut stats = Stats::default();
-    let mul = if thorough { 30 } else { 1 };
+    let mul = if thorough { 20 } else { 1 };
 
     // a fixed prologue: the F31 witnesses of DESIGN §9 (invalid selections are accepted by the public API)
     {
@@ -1097,8 +1097,8 @@ fn main() {
         out.stat("f31_prologue_steps", k);
     }
 
-    let comp_sessions = 170 * mul;
-    let ced_sessions = 170 * mul;
+    let comp_sessions = 800 * mul;
+    let ced_sessions = 800 * mul;
     for k in 0..comp_sessions {
         let steps = 30 + rng.below(60) as usize;
         comp_session(k, &mut rng, &mut out, &mut stats, steps, k % 5 == 4);
